@@ -28,6 +28,24 @@ CHECKS = {
         note="Trusted base: matcher E, tokenizer T, html.unescape, the documented merge rules as coded in the harness model.",
         ref="2/C03",
     ),
+    "C05": dict(
+        technique="property-based invariants over arbitrarily nested id-tagged trees: positional containment of the flat concatenation of every block-free sibling run, whitespace-token adjacency rule via the tokenizer; exhaustive sibling-kind triples",
+        text="Seeded generated-input search over arbitrary (also invalid) nestings with two independent invariants, plus complete enumeration of parent x sibling-kind triples. Exploration; exhaustive on the triples sub-domain.",
+        note="Trusted base: flat() of the layout model L, tokenizer T; content is metacharacter-free (and whitespace-free in the token clause).",
+        ref="2/C05",
+    ),
+    "C06": dict(
+        technique="property-based reference model: Hypothesis-generated validly nested trees rendered by an independent line-list layout model L and compared for exact string equality; metamorphic indent-shift / eol-substitution laws",
+        text="Seeded generated-input search against a reference renderer written from the documented rule (exact equality for every indent/eol), plus two metamorphic laws that do not depend on the model. Exploration.",
+        note="Trusted base: layout model L (self-tested); valid nesting only, metacharacter-free content.",
+        ref="2/C06",
+    ),
+    "C07": dict(
+        technique="property-based metamorphic relation: render(tree with metadata nodes at generated positions) == render(tree without), dependency list == inserted objects resolved by the harness resolver; insert-then-remove through the list API",
+        text="Seeded generated-input search over trees and metadata positions (first/last/between/only child/in a row/inside void/beside a single text, each required to occur); metamorphic oracle. Exploration.",
+        note="Trusted base: recipe stripping, harness dependency resolver D.",
+        ref="2/C07",
+    ),
 }
 
 PENDING_REASON = "check not built yet in this revision (work in progress; see DESIGN.md section 2 for the planned generator and oracle)"
